@@ -161,6 +161,12 @@ def run(ctx):
         spaces = [("3sp,<=2rxn,coeff0-1", (0, 1), 2), ("3sp,<=1rxn,coeff0-2", (0, 1, 2), 1)]
     else:
         spaces = [("3sp,<=2rxn,coeff0-2", (0, 1, 2), 2), ("3sp,<=3rxn,coeff0-1", (0, 1), 3)]
+    if not ctx.quick:
+        for net in W.enum_networks(("A", "B", "C", "D"), (0, 1), 2):
+            idx += 1
+            if ctx.mine(idx):
+                check_network(ctx, net, tag="4sp,<=2rxn,coeff0-1")
+        ctx.exhaustive["4sp,<=2rxn,coeff0-1"] = True
     for tag, coeffs, k in spaces:
         for net in W.enum_networks(("A", "B", "C"), coeffs, k):
             idx += 1
